@@ -443,6 +443,9 @@ func run(c *core.Ctx) {
 	n := 0
 	emit := func(in Input) {
 		caseNo, ok := c.Begin()
+		if !ok && caseNo < c.Resume {
+			return
+		}
 		c.Exec()
 		c.Edge(int64(len(in.Files)))
 		c.StateN(1)
